@@ -58,7 +58,10 @@ func genC08(r *simrt.Rand, tier string, idx uint64) *Plan {
 	p := genBase(r, "c08", true)
 	p.Servers = p.Servers[:1]
 	p.Conns = []ConnCfg{genConn(r, 1)}
-	if p.Codec == "bytes" {
+	// the raw-bytes body codec is kept in the enumerated modes (no stream service then: its handlers
+	// take typed messages)
+	rawBytes := p.Codec == "bytes" && idx%4 >= 2
+	if p.Codec == "bytes" && !rawBytes {
 		p.Codec = "code"
 	}
 	p.Params = map[string]int{"mode": int(idx % 4)}
@@ -148,6 +151,9 @@ func genC08(r *simrt.Rand, tier string, idx uint64) *Plan {
 		e := (idx/4)*2 + (idx%4 - 2)
 		var ops []PuppetOp
 		p.Streams = []StreamPlan{{Conn: 0, Echo: true, RBuf: []int{0, 3, 17}[e%3]}}
+		if rawBytes {
+			p.Streams = nil
+		}
 		for k := uint64(0); k < 6; k++ {
 			h, op := c08Point(e*6+k, thorough)
 			if k == 0 {
